@@ -74,6 +74,16 @@ SNIPPETS = [
     ("str_join_split", dict(a=S), "return ':'.join(['a', a, 'b'])", [dict(a="x"), dict(a="")]),
     ("nested_fn", dict(i=Int), "def g(k):\n        return k + 1\n    return g(g(i))", [dict(i=1)]),
     ("walrus", dict(x=Seq(Int)), "if (n := len(x)) > 1:\n        return n\n    return -n", [dict(x=[1, 2]), dict(x=[1])]),
+    ("deque_rotate", dict(x=Seq(Int), n=Int), "y = list(x)\n    d = deque(y)\n    d.rotate(n)\n    return list(d)",
+     [dict(x=[1, 2, 3], n=1), dict(x=[1, 2, 3], n=-1), dict(x=[1, 2, 3], n=0), dict(x=[1, 2, 3], n=2), dict(x=[1, 2, 3], n=4), dict(x=[], n=1)]),
+    ("deque_ends", dict(x=Seq(Int), i=Int), "y = list(x)\n    d = deque(y)\n    d.appendleft(i)\n    a = d.pop()\n    b = d.popleft()\n    return (a, b, list(d))", [dict(x=[1, 2, 3], i=9), dict(x=[5], i=9)]),
+    ("deque_remove", dict(x=Seq(Int), i=Int), "y = list(x)\n    d = deque(y)\n    d.remove(i)\n    return list(d)", [dict(x=[1, 2, 1], i=1), dict(x=[1, 2], i=2), dict(x=[1, 2], i=3)]),
+    ("dict_items_loop", dict(k=S, __locals__={"d": Dict(Str, Int, ordered=True)}), "d = {'a': 1, 'b': 2}\n    d[k] = 7\n    t = 0\n    for kk, vv in d.items():\n        t = t * 10 + vv\n    return t", [dict(k="a"), dict(k="c")]),
+    ("dict_update_clear", dict(k=S, __locals__={"d": Dict(Str, Int, ordered=True), "e": Dict(Str, Int, ordered=True)}),
+     "d = {'a': 1}\n    e = {'b': 2}\n    e[k] = 3\n    d.update(e)\n    n = len(d)\n    v = d.get('a')\n    d.clear()\n    return (n, v, len(d))", [dict(k="a"), dict(k="z")]),
+    ("list_clear_copy", dict(x=Seq(Int)), "y = list(x)\n    z = y.copy()\n    y.clear()\n    return (len(y), z)", [dict(x=[1, 2]), dict(x=[])]),
+    ("str_split_join_roundtrip", dict(a=S), "return ':'.join(a.split(':')) == a", [dict(a="a:b"), dict(a=""), dict(a="::")]),
+    ("product_singleton", dict(x=Seq(Int)), "out = []\n    for a, b in itertools.product(x, [7]):\n        out.append(a + b)\n    return out", [dict(x=[1, 2]), dict(x=[])]),
     ("truthiness", dict(a=S, x=Seq(Int), i=Int), "return (bool(a), not x, bool(i))", [dict(a="", x=[], i=0), dict(a="x", x=[1], i=2)]),
 ]
 
@@ -97,7 +107,7 @@ def run(verbose=False):
     for name, params, body, _inputs in SNIPPETS:
         src.append("def %s(%s):\n    %s\n" % (name, ", ".join(p for p in params if p != "__locals__"), body))
     path = os.path.join(d, "conf", "snippets.py")
-    open(path, "w").write("\n\n".join(src))
+    open(path, "w").write("import itertools\nfrom collections import deque\n\n" + "\n\n".join(src))
     ns = {}
     exec(compile(open(path).read(), path, "exec"), ns)
     bad, n, imprecise, unsupported = [], 0, [], []
